@@ -298,11 +298,27 @@ def drain(F, R):
                     continue
                 if re.search(r'Cell::<T>::(take|set|replace)$', nm) and t['args']:
                     p0 = op_place(t['args'][0])
-                    for dd in (body.whole_defs(p0['l']) if p0 else []):
-                        if dd[2] == 'assign' and dd[3]['rv']['k'] == 'ref':
-                            for e in place_proj(dd[3]['rv']['place']):
-                                if isinstance(e, dict) and e.get('f') == 'payload':
-                                    out.add((e.get('adt'), e['f']))
+                    work_ = [p0['l']] if p0 else []
+                    seen_ = set()
+                    while work_ and len(seen_) < 12:
+                        l_ = work_.pop()
+                        if l_ in seen_:
+                            continue
+                        seen_.add(l_)
+                        for dd in body.whole_defs(l_):
+                            if dd[2] != 'assign':
+                                continue
+                            rv_ = dd[3]['rv']
+                            if rv_['k'] == 'ref':
+                                hit_ = False
+                                for e in place_proj(rv_['place']):
+                                    if isinstance(e, dict) and e.get('f') == 'payload':
+                                        out.add((e.get('adt'), e['f']))
+                                        hit_ = True
+                                if not hit_:
+                                    work_.append(rv_['place']['l'])  # reborrow `&*slot`
+                            elif rv_['k'] == 'use' and op_place(rv_['op']) is not None:
+                                work_.append(op_place(rv_['op'])['l'])  # the reference handed to a (spliced) helper
             return out
         fed = slots(d.call, d.arm('PayloadChunk'))
         failed = set()
@@ -371,8 +387,8 @@ def error_wakes(F, R):
                     is_err = True if is_err is None else is_err
         head = None
         for t, c in p.conds:
-            if t[0] == 'bin' and t[1] == 'Eq' and term_has(t, 'wrapping_sub'):
-                head = (c != ('eq', 0))
+            if t[0] == 'bin' and t[1] in ('Eq', 'Ne') and term_has(t, 'wrapping_sub'):
+                head = (c != ('eq', 0)) == (t[1] == 'Eq')
         if is_err is not True:
             continue
         ret = p.ret
